@@ -15,11 +15,13 @@ def labelOk (M : Nat) : Label → Bool
 /-- states reachable when the initial maximum and every maximum passed to set_max_threads is at most `M` -/
 inductive ReachableB (M : Nat) : State → Prop where
   | init (nq ng max : Nat) : max ≤ M → ReachableB M (initState nq ng max)
+  | initP (ps : List Bool) (ng max : Nat) : max ≤ M → ReachableB M (initStateP ps ng max)
   | step {s s' : State} (l : Label) : ReachableB M s → labelOk M l = true → next s l = some s' → ReachableB M s'
 
 theorem ReachableB.reachable {M : Nat} {s : State} (h : ReachableB M s) : Reachable s := by
   induction h with
   | init nq ng max _ => exact Reachable.init nq ng max
+  | initP ps ng max _ => exact Reachable.initP ps ng max
   | step l _ _ hs ih => exact Reachable.step l ih hs
 
 /-- every reachable state is reachable with some bound (the largest maximum that was ever configured) -/
@@ -130,6 +132,7 @@ theorem poolInv_ret {M : Nat} {s s' : State} {a r : Nat} (h : PoolInv M s) (hs :
 theorem poolInv_reachable {M : Nat} {s : State} (hr : ReachableB M s) : PoolInv M s := by
   induction hr with
   | init nq ng max hle => exact poolInv_init nq ng max M hle
+  | initP ps ng max hle => exact poolInv_initP ps ng max M hle
   | step l _ hok hstep ih =>
     cases l with
     | act a =>
